@@ -107,7 +107,8 @@ Definition body_delete (c : cfg) (k : pyval) (delitem : bool) (now : Z) (d : st)
   | PutRaise => raise_out d (RRaise EBind)
   | PutOk dbk raw =>
     match del_select dbk (b2z raw) now (rows d) with
-    | [] => if delitem then raise_out d (RRaise EKeyError) else ok_out d [] None (RBool false)
+    (* __delitem__ raises KeyError inside the transaction (ROLLBACK); delete() turns it into False *)
+    | [] => raise_out d (if delitem then RRaise EKeyError else RBool false)
     | r0 :: _ => ok_out (t_delete (del_delete (rowid r0) (rows d)) d) [rfile r0] None (RBool true)
     end
   end.
